@@ -248,6 +248,8 @@ def run_item(item):
             for lb in e.get("labels", []):
                 KNOWN.setdefault(lb, []).append((e["id"], resolve(e["sig"])))
 
+    models.NETLOC_ASCII = bool(item.get("netloc_ascii", False))
+
     def body(st):
         fn(st, **params)
     ex = Explorer(body, max_seconds=item.get("budget_s", float(os.environ.get("PYSX_ITEM_BUDGET_S", "900"))), timeout_ms=item.get("timeout_ms", 60000),
@@ -527,6 +529,8 @@ def main_check(pid, modname, tier, seed):
         it.setdefault("mod", modname)
         it["pid"] = pid
         it["deadline"] = t0 + budget
+        # quick tier: symbolic netloc characters are ASCII unless the item asks for all code points
+        it.setdefault("netloc_ascii", tier == "quick")
     jobs = int(os.environ.get("VERIF_JOBS", "0")) or None
     results = run_items(items, jobs)
     # work sharing: sub-trees handed back (split depth reached / item ran longer than its
@@ -632,7 +636,9 @@ def main_check(pid, modname, tier, seed):
             "stubs": getattr(mod, "STUBS", []), "trusted_base": getattr(mod, "TRUSTED", []),
             "items": per_item, "harness_errors": [e[-400:] for e in errors[:3]],
         },
-        "assumptions": getattr(mod, "ASSUMPTIONS", []),
+        "assumptions": list(getattr(mod, "ASSUMPTIONS", [])) + (
+            ["quick tier: symbolic characters inside a netloc are ASCII, except in items that target non-ASCII netlocs (paths cut are counted in cut_reasons); "
+             "the thorough tier runs the exact model of urlsplit's NFKC check over all code points"] if tier == "quick" else []),
         "wall_s": round(wall, 2), "violations": len(out_lines),
     }
     evdir = os.environ.get("VERIF_EVIDENCE_DIR") or os.path.join(VERIF, "evidence")
